@@ -103,7 +103,7 @@ Lemma case_item_matches_spec subject pats asts :
 Proof.
   intros H. induction H as [|p a pats asts [Hp Hsw] Hrest IH]; [reflexivity|].
   cbn [case_item_matches item_matches_b existsb].
-  pose proof (case_pattern_correct_plain p a subject Hp Hsw) as Hc.
+  pose proof (case_pattern_correct_closed p a subject Hp Hsw) as Hc.
   destruct (compile case_config p) as [b|e| |]; try contradiction.
   - destruct (pat_is_match case_config b subject) eqn:Em.
     + assert (matches_b a subject = true) by (apply matches_b_iff, Hc; reflexivity).
